@@ -397,7 +397,7 @@ func multiKeyset(its []*item, class string, disableLast bool) (*tinkpb.Keyset, [
 	}
 	ks.PrimaryKeyId = members[len(members)/2].id
 	if disableLast {
-		ks.Key[len(ks.Key)-1].Status = tinkpb.KeyStatusType_DISABLED
+		ks.Key[(len(members)/2+1)%len(members)].Status = tinkpb.KeyStatusType_DISABLED
 	}
 	return ks, members
 }
